@@ -595,3 +595,34 @@ Proof.
   destruct p; cbn [lookup_bool json_pretty_table Bool.eqb]; eexists; (split; [reflexivity|]);
     now apply json_roundtrip_gen.
 Qed.
+
+(* ---- objects as data: member lookup by name is faithful exactly when the stringified keys are
+   pairwise distinct *)
+Definition member_names (m : list (key * value)) : list (list N) := map (fun kv => key_text (fst kv)) m.
+
+Lemma json_object_faithful ft m :
+  NoDup (member_names m) ->
+  forall k x, In (k, x) m ->
+  exists ms, canon ft (VMap m) = JObj ms /\ In (key_text k, canon ft x) ms /\
+             forall j, In (key_text k, j) ms -> j = canon ft x.
+Proof.
+  intros Hnd k x Hin. cbn [canon]. eexists. split; [reflexivity|]. split.
+  - apply in_map_iff. exists (k, x). auto.
+  - induction m as [|[k' x'] m IH]; [contradiction|].
+    cbn [member_names map fst snd] in Hnd. inversion_clear Hnd as [|? ? Hn Hnd'].
+    intros j Hj. cbn [map fst snd] in Hj. destruct Hin as [E|Hin], Hj as [Ej|Hj].
+    + injection E as -> ->. now injection Ej.
+    + injection E as -> ->. exfalso. apply Hn. apply in_map_iff in Hj. destruct Hj as ([k2 x2] & E2 & H2).
+      injection E2 as E2 _. cbn [fst] in E2. unfold member_names. apply in_map_iff. exists (k2, x2). auto.
+    + injection Ej as Ej _. exfalso. apply Hn. rewrite Ej. unfold member_names. apply in_map_iff.
+      exists (k, x). auto.
+    + now apply IH.
+Qed.
+
+Lemma json_key_collision_refuted :
+  exists m : list (key * value), NoDup (map fst m) /\ ~ NoDup (member_names m).
+Proof.
+  exists [(KInt U64 1, VNone); (KStr [49] false, VNone)]. split.
+  - repeat constructor; cbn; intuition discriminate.
+  - intros H. inversion_clear H as [|? ? Hn _]. apply Hn. now left.
+Qed.
